@@ -498,7 +498,7 @@ structure Startup (w0 : W) : Prop where
   sys : w0.sys = []
   nacc : w0.nacc = 0
 
-theorem foldl_icStep_frame (now con soe : Nat) (l : List (Bytes × Dev)) (acc : W × List String × List (Bytes × Dev))
+theorem foldl_icStep_frame (now : Nat) (con soe : List Nat) (l : List (Bytes × Dev)) (acc : W × List String × List (Bytes × Dev))
     (hl : GoodDevs l → GoodDevs acc.2.2 → True) :
     (l.foldl (icStep now con soe) acc).1.sys = acc.1.sys ∧ (l.foldl (icStep now con soe) acc).1.nacc = acc.1.nacc ∧
     (l.foldl (icStep now con soe) acc).1.cfg = acc.1.cfg ∧ (l.foldl (icStep now con soe) acc).1.specs = acc.1.specs ∧
@@ -526,7 +526,7 @@ theorem foldl_icStep_frame (now con soe : Nat) (l : List (Bytes × Dev)) (acc : 
       · exact h1.2 nd (by simp) pl (hp ▸ hpl) n hn
 
 /-- `dev_initial_connect` keeps the start-up conditions: it only queues login actions -/
-theorem Startup.initialConnect {w : W} (h : Startup w) (now con soe : Nat) : Startup (Pm.Daemon.initialConnect w now con soe).1 := by
+theorem Startup.initialConnect {w : W} (h : Startup w) (now : Nat) (con soe : List Nat) : Startup (Pm.Daemon.initialConnect w now con soe).1 := by
   rw [initialConnect_eq]
   obtain ⟨h1, h2, _, h4⟩ := foldl_icStep (fun cid _ => cid = 0) rfl now con soe w.devs (w, [], [])
     (fun nd hnd a ha => h.acts nd hnd a ha) (by intro nd hnd; cases hnd)
@@ -535,7 +535,7 @@ theorem Startup.initialConnect {w : W} (h : Startup w) (now con soe : Nat) : Sta
     f1.trans h.sys, f2.trans h.nacc⟩
 
 /-- … and the static data -/
-theorem Good.initialConnect {w : W} (h : Good w) (now con soe : Nat) : Good (Pm.Daemon.initialConnect w now con soe).1 := by
+theorem Good.initialConnect {w : W} (h : Good w) (now : Nat) (con soe : List Nat) : Good (Pm.Daemon.initialConnect w now con soe).1 := by
   rw [initialConnect_eq]
   obtain ⟨_, _, f3, f4, f5⟩ := foldl_icStep_frame now con soe w.devs (w, [], []) (fun _ _ => trivial)
   have hnil : GoodDevs ([] : List (Bytes × Dev)) := by
@@ -617,10 +617,10 @@ abbrev w0 : W := Two.w0
 abbrev p1 : PassIn := Two.p1
 /-- pass 2: client 2 connects; client 1 is writable (the banner goes out) and sends `nodes` and `help` in one read -/
 def p2 : PassIn :=
-  { now := 2000, acc := 1, con := 0, soe := 0, envs := [{ fd := 1000, rev := 3, rk := 0, data := bstr "nodes\nhelp\n", cap := 100 }] }
+  { now := 2000, acc := 1, con := [0], soe := [0], envs := [{ fd := 1000, rev := 3, rk := 0, data := bstr "nodes\nhelp\n", cap := 100 }] }
 /-- pass 3: client 1's replies go out; client 2 — whose descriptor takes 7 bytes only — sends `status a1`, `quit`, `nodes` -/
 def p3 : PassIn :=
-  { now := 3000, acc := 0, con := 0, soe := 0,
+  { now := 3000, acc := 0, con := [0], soe := [0],
     envs := [{ fd := 1000, rev := 2, rk := 0, data := [], cap := 1000 },
              { fd := 1001, rev := 3, rk := 0, data := bstr "status a1\nquit\nnodes\n", cap := 7 }] }
 
@@ -632,7 +632,7 @@ def run2 : List Step := [([], Two.p1), ([], Two.p2), ([], Two.p3), (Two.xs4, Two
 
 /-- instead of pass 2: client 1 is writable and sends `nodes`, `quit` and once more `nodes` in one read -/
 def pq : PassIn :=
-  { now := 2000, acc := 0, con := 0, soe := 0, envs := [{ fd := 1000, rev := 3, rk := 0, data := bstr "nodes\nquit\nnodes\n", cap := 1000 }] }
+  { now := 2000, acc := 0, con := [0], soe := [0], envs := [{ fd := 1000, rev := 3, rk := 0, data := bstr "nodes\nquit\nnodes\n", cap := 1000 }] }
 
 theorem startup : Startup w0 :=
   ⟨rfl, (by
